@@ -94,8 +94,8 @@ PROPS.update({
               trusted=BOUNDED_TRUSTED, dropped=["IntoOwned bodies are iterator adapters / std ToOwned calls outside the Verus dialect"]),
     "C15": _p("model_checking", [], "==, partial_cmp, cmp of read items against the owned vectors for all triples of short vectors in every representation; Wrapped raw versus encoded.",
               trusted=BOUNDED_TRUSTED, dropped=["ReadSlice comparisons delegate to std's iterator comparison, which Verus cannot read"]),
-    "C17": _p("model_checking", [], "clause 1 only: after reserve_items / reserve_regions / merge_regions / merge_capacity, pushing exactly the announced contents leaves every capacity reported by heap_size unchanged.",
-              trusted=BOUNDED_TRUSTED, dropped=["allocation counts (clause 2, O(log n) allocator calls) are whole-history resource properties of std::Vec's growth policy: no contract here can express them"]),
+    "C17": _p("model_checking", [], "after reserve_items / reserve_regions / merge_regions / merge_capacity, pushing exactly the announced contents leaves every capacity reported by heap_size unchanged and calls the allocator zero times; without pre-sizing n = 2^6..2^14 pushes cost O(log n) allocator calls per storage (counting global allocator).",
+              trusted=BOUNDED_TRUSTED, dropped=["allocation counts are whole-history resource properties of std::Vec's growth policy: no contract here can express them, so C17 has no deductive part; the bounded driver counts allocator calls up to n = 2^14"]),
     "C18": _p("model_checking", [], "heap_size accounting over 12 compositions and the index containers with a recording callback, plus a program-text obligation that every storage field is forwarded.",
               scans=["heap_size_forwards_all"], trusted=BOUNDED_TRUSTED, dropped=["the call history of an FnMut callback is not observable in a Verus postcondition"]),
 })
